@@ -19,8 +19,8 @@ ASSUMPTIONS = [
     'the task running step_until_terminated() is observed after the loop is quiescent (no wall clock)',
 ]
 BUDGET = {
-    'quick': {'enum': ['k1', 'k2', 'listener', 'hooks', 'tasks', 'extsoon'], 'hyp': 4000, 'shards': 8},
-    'thorough': {'enum': ['k1', 'k2', 'k3', 'k4w', 'listener', 'hooks', 'tasks', 'extsoon'], 'hyp': 160000, 'shards': 16},
+    'quick': {'enum': ['k1', 'k2', 'listener', 'hooks', 'tasks', 'extsoon', 'ownloop'], 'hyp': 4000, 'shards': 8},
+    'thorough': {'enum': ['k1', 'k2', 'k3', 'k4w', 'listener', 'hooks', 'tasks', 'extsoon', 'ownloop'], 'hyp': 160000, 'shards': 16},
 }
 ALPHABET = [['pause', 'p'], ['play'], ['kill', 'kt'], ['resume', 1]]
 TERMINAL = ('finished', 'excepted', 'killed')
@@ -33,9 +33,16 @@ def enumerate_cases(tier, scope):
     if scope in ('k1', 'k2', 'k3'):
         k = int(scope[1])
         max_gap = {1: 8, 2: 6, 3: 4}[k]
-        for name in ('async2', 'wait1', 'chain', 'waitwait', 'failing', 'selfkill', 'sync3'):
-            for sched in gen.schedules(ALPHABET, k, max_gap):
+        # (missing_out: a required output is never emitted - the process finishes, unsuccessfully)
+        for name in ('async2', 'wait1', 'chain', 'waitwait', 'failing', 'selfkill', 'sync3') + (('missing_out',) if k < 3 else ()):
+            for sched in gen.schedules(ALPHABET, k, max_gap if name != 'missing_out' else min(max_gap, 4)):
                 yield {'program': cat[name], 'schedule': sched, 'tag': f'{scope}:{name}', 'listener_twice': True, 'cleanup_follow_up': True}
+    elif scope == 'ownloop':
+        # the process has a loop of its own and is constructed / controlled from synchronous code while no loop runs
+        for name in ('async2', 'wait1', 'chain', 'failing', 'selfkill', 'missing_out'):
+            for k in (1, 2):
+                for sched in gen.schedules(ALPHABET + [['fail', 'f']], k, 2):
+                    yield {'program': cat[name], 'schedule': sched, 'decoy_loop': True, 'tag': f'ownloop:{name}'}
     elif scope == 'extsoon':
         alpha = [['ext_soon', 'raise', 'x'], ['ext_soon', 'ok', 'y'], ['pause', 'p'], ['play'], ['kill', 'kt']]
         for name in ('async2', 'wait1', 'chain'):
@@ -141,6 +148,8 @@ def execute(case):
                 v('future-done-while-live', f'sample {i} ({smp[0]}): future done in state {smp[1]}')
                 break
         views = ex.views()
+        if views.get('decoy_scheduled') or views.get('future_loop_is_own') is False:
+            v('left-its-loop', f"{views.get('decoy_scheduled')} callback(s) were scheduled on the thread's default loop; outcome future on the process's loop: {views.get('future_loop_is_own')}")
         final = views['state']
         notes = [n[0] for n in w.notifications.get(pid, [])]
         term_notes = [n for n in notes if n in TERMINAL_NOTES.values()]
@@ -150,12 +159,22 @@ def execute(case):
             if final == 'finished':
                 last = w.extra.get('last_ret', {}).get(pid)
                 exp_result, exp_ok = _expected(last)
+                need = ((((case.get('program') or {}).get('spec') or {}).get('outputs') or {}).get('ports') or {})
+                if any(port.get('required') and name not in views['outputs'] for name, port in need.items()):
+                    exp_ok = False  # the spec asks for an output that was never emitted
                 res = views['result']
                 if res[0] != 'ok' or res[1] != exp_result:
                     v('finished-result', f'result()={res} expected {exp_result!r}')
                 fr = views.get('future_result')
                 if fr is None or fr[0] != 'ok' or fr[1] != views['outputs']:
                     v('finished-future', f'future result {fr} != outputs {views["outputs"]}')
+                # the listeners are told the outputs (what the outcome future resolved to), not the value the last step returned
+                from ..programs import _summ
+
+                for note in w.notifications.get(pid, []):
+                    if note[0] == 'on_process_finished' and note[1] and note[1][0] != _summ(views['outputs']):
+                        v('finished-notification-payload', f"on_process_finished was handed {note[1][0]!r}, the outputs are {views['outputs']!r}")
+                        break
                 if views['successful'] != ['ok', exp_ok] or views['is_successful'] != ['ok', exp_ok]:
                     v('finished-successful', f"successful()={views['successful']} is_successful={views['is_successful']} expected {exp_ok}")
                 if views['killed'] != ['ok', False]:
